@@ -26,7 +26,7 @@ type c07Spec struct {
 	NCtx   int    `json:"nctx"`
 	NPipes int    `json:"npipes"`
 	NOps   int    `json:"nops"`
-	Short  []int  `json:"short_ms"` // per context: survey time in ms, 0 = one hour (never expires)
+	Short  []int  `json:"short_ms"` // per context: survey time in ms, 0 = one hour (never expires), -1 = option value 0 (no limit)
 	Tr     string `json:"tr,omitempty"`
 }
 
@@ -43,6 +43,8 @@ func TestC07(t *testing.T) {
 			ms := 0
 			if rnd.Intn(5) < 2 {
 				ms = 50 + rnd.Intn(251)
+			} else if (i+j)%4 == 3 {
+				ms = -1 // survey time 0: accepted, and documented as "no limit"
 			}
 			sp.Short = append(sp.Short, ms)
 		}
@@ -407,7 +409,12 @@ func c07Script(c *mon.Case, sp c07Spec) {
 		if sp.Short[i] > 0 {
 			cx.stime = time.Duration(sp.Short[i]) * time.Millisecond
 		}
-		if err := rig.Ctxs[i].SetOption(mangos.OptionSurveyTime, cx.stime); err != nil {
+		set := cx.stime
+		if sp.Short[i] < 0 {
+			set = 0 // never expires: the model's "one hour" stands for it
+			c.Count("contexts_with_survey_time_0", 1)
+		}
+		if err := rig.Ctxs[i].SetOption(mangos.OptionSurveyTime, set); err != nil {
 			panic(err)
 		}
 		s.st = append(s.st, cx)
